@@ -89,7 +89,8 @@ Definition load (sc : scenario) : world :=
 
 (* ---- the initial view of an agent ---------------------------------------------------------- *)
 Inductive start_host := SHost (i : ip) | SRandom | SAllLocal.
-Record start_pos := { sp_nets : list net; sp_hosts : list ip; sp_ctrl : list start_host }.
+Record start_pos := { sp_nets : list net; sp_hosts : list ip; sp_ctrl : list start_host;
+                      sp_svcs : list (ip * list svc); sp_data : list (ip * list data) }.
 
 (* _get_all_local_ips (static addresses) *)
 Definition all_local (w : world) : gset ip :=
@@ -118,7 +119,8 @@ Definition init_view (w : world) (sp : start_pos) (oracle : list ip) : view :=
   let ctrl := resolve_ctrl w (sp_ctrl sp) oracle in
   {| v_ctrl := ctrl;
      v_hosts := list_to_set (sp_hosts sp) ∪ ctrl;
-     v_svcs := ∅; v_data := ∅;
+     v_svcs := list_to_map (map (fun kv => (fst kv, list_to_set (snd kv))) (sp_svcs sp));
+     v_data := list_to_map (map (fun kv => (fst kv, list_to_set (snd kv))) (sp_data sp));
      v_nets := list_to_set (sp_nets sp) ∪
                ⋃ (map (fun h => ⋃ (map neighbours (elements (nets_of w h)))) (elements ctrl));
      v_blocks := ∅ |}.
